@@ -101,8 +101,8 @@ def main():
     pc = cfg.get(prop, {})
     ledger = load_json(os.path.join(VERIF, 'ledger.json'), {})
     known = load_json(os.path.join(VERIF, 'known_findings.json'), {'findings': []})
-    units = pc.get('units') or units_for(prop)
-    if not units:
+    units = pc['units'] if 'units' in pc else units_for(prop)
+    if not units and not pc.get('extra'):
         print('UNDECIDED property=%s no unit carries a contract for it' % prop)
         return 2
     os.makedirs(os.path.join(VERIF, 'evidence'), exist_ok=True)
@@ -203,6 +203,11 @@ def main():
         mod = importlib.import_module(extra['module'])
         er = mod.run(prop, tier, extra)
         bounded.append(er['summary'])
+        for hrec in er['summary'].get('harnesses', []):
+            oname = 'kani/%s [BOUNDED: %s]' % (hrec['harness'], hrec.get('bound', ''))
+            obligations.append(oname)
+            if hrec['result'] == 'SUCCESSFUL':
+                discharged.append(oname)
         for v in er.get('violations', []):
             k = known_match(v, prop, known)
             (knowns if k else violations).append((v, k))
